@@ -1,6 +1,7 @@
 //! `lsmverif` — correspondence harness between fjall-rs/lsm-tree (the real crate, in-process) and the Lean model
 //! (`lsmdrv`, line protocol). See /verif/DESIGN.md section 5.
 mod ia;
+mod fs;
 mod ib;
 mod util;
 
@@ -33,6 +34,10 @@ fn main() {
     let seed = arg_u64(&args, "--seed", 1);
     let cases = arg_u64(&args, "--cases", 200);
     let mut st = Stats::default();
+    if cmd == "fs" {
+        fs::main(&args);
+        return;
+    }
     match cmd {
         "ia" => {
             let which = args.get(2).map(String::as_str).unwrap_or("all");
